@@ -1,44 +1,147 @@
 From DZ Require Import Base Keys Merkle BurnRate Swap_Ring State World Passport Exec Lemmas_Passport.
 
-Definition run_ops (W : world) (ops : list op) : world * list bool :=
-  fold_left (fun '(W, rs) o => let '(W', b) := exec_op W o in (W', rs ++ [b])) ops (W, []).
+(* ------------------------------------------------------------------------------------------------------------- *)
+(* 10. instruction frames and transactions (Exec.v)                                                                *)
+(* ------------------------------------------------------------------------------------------------------------- *)
+Definition pp_cx (ms : list meta) (h : N) (sib : option sibling) : ctx :=
+  {| cx_prog := KPassport; cx_metas := ms; cx_height := h; cx_sibling := sib |}.
 
-Definition ix1 (signers : list key) (prog : key) (d : ixdata) (ms : list meta) : op :=
-  OTx {| tx_signers := signers; tx_ixs := [{| i_prog := prog; i_data := d; i_metas := ms |}] |}.
-Definition uA := KUser 1.  (* upgrade authority, then admin *)
-Definition uS := KUser 2.  (* sentinel *)
-Definition uP := KUser 3.  (* requester *)
-Definition svc1 := KUser 77.
-Definition att1 := {| at_validator := KUser 50; at_service := svc1; at_sig := 5 |}.
-Definition mode1 := AMValidatorWithBackups att1 [KUser 60; KUser 61].
-Definition pd_acct := {| lamports := 1141440; owner := KLoader; alen := 36; data := DProgData (Some uA) |}.
-Definition op_init := ix1 [uA] KPassport (IxPassport PInitializeProgram) [mk uA true true; mk KPpConfig false true; mk KSystem false false].
-Definition op_set_admin := ix1 [uA] KPassport (IxPassport (PSetAdmin uA)) [mk (KProgData KPassport) false false; mk uA true false; mk KPpConfig false true].
-Definition op_conf (s : pp_setting) := ix1 [uA] KPassport (IxPassport (PConfigureProgram s)) [mk KPpConfig false true; mk uA true false].
-Definition op_request (payer : key) (m : access_mode) :=
-  ix1 [payer] KPassport (IxPassport (PRequestAccess m))
-    [mk KPpConfig false false; mk payer true true; mk (KPpRequest (access_mode_service m)) false true; mk KSystem false false].
-Definition grant_metas (svc ben : key) := [mk KPpConfig false false; mk uS true true; mk (KPpRequest svc) false true; mk ben false true].
-Definition op_grant (svc ben : key) := ix1 [uS] KPassport (IxPassport PGrantAccess) (grant_metas svc ben).
-Definition op_deny (svc : key) := ix1 [uS] KPassport (IxPassport PDenyAccess) [mk KPpConfig false false; mk uS true true; mk (KPpRequest svc) false true].
-Definition setup : list op :=
-  [OAirdrop uA 1000000000000; OAirdrop uS 1000000000; OAirdrop uP 1000000000000; OForge (KProgData KPassport) pd_acct;
-   op_init; op_set_admin; op_conf (PSSentinel uS); op_conf (PSAccessRequestDeposit 10000000 5000); op_conf (PSBackupIdsLimit 2)].
-Definition W_setup := fst (run_ops world0 setup).
-Eval vm_compute in snd (run_ops world0 setup).
-Eval vm_compute in snd (run_ops W_setup [op_request uP mode1; op_conf (PSAccessRequestDeposit 20 7); op_grant svc1 uP]).
-Eval vm_compute in map (fun k => lamports (get (fst (run_ops W_setup [op_request uP mode1; op_conf (PSAccessRequestDeposit 20 7); op_grant svc1 uP])) k)) [uA; uS; uP; KPpRequest svc1; KPpConfig].
-(* double grant in one tx *)
-Definition op_grant2 (svc ben : key) :=
-  OTx {| tx_signers := [uS]; tx_ixs := [{| i_prog := KPassport; i_data := IxPassport PGrantAccess; i_metas := grant_metas svc ben |};
-                                        {| i_prog := KPassport; i_data := IxPassport PGrantAccess; i_metas := grant_metas svc ben |}] |}.
-Eval vm_compute in snd (run_ops W_setup [op_request uP mode1; op_grant2 svc1 uP]).
-Eval vm_compute in map (fun k => lamports (get (fst (run_ops W_setup [op_request uP mode1])) k)) [uA; uS; uP; KPpRequest svc1; KPpConfig].
-Eval vm_compute in map (fun k => lamports (get (fst (run_ops W_setup [op_request uP mode1; op_grant2 svc1 uP])) k)) [uA; uS; uP; KPpRequest svc1; KPpConfig].
-(* payer = request PDA *)
-Definition rk1 := KPpRequest svc1.
-Definition op_request_self (m : access_mode) :=
-  ix1 [uP] KPassport (IxPassport (PRequestAccess m))
-    [mk KPpConfig false false; mk (KPpRequest (access_mode_service m)) false true; mk (KPpRequest (access_mode_service m)) false true; mk KSystem false false].
-Eval vm_compute in snd (run_ops W_setup [OAirdrop rk1 50000000; op_request_self mode1; op_grant svc1 rk1]).
-Eval vm_compute in map (fun k => get (fst (run_ops W_setup [OAirdrop rk1 50000000; op_request_self mode1; op_grant svc1 rk1])) k) [uS; rk1].
+Lemma total_is_lamports_sum W ks : total W ks = lamports_sum W ks.
+Proof. reflexivity. Qed.
+Lemma existsb_key_in k l : existsb (key_eqb k) l = true <-> In k l.
+Proof. rewrite existsb_exists. split; [intros (x & Hi & He); apply key_eqb_eq in He; subst; assumption|].
+  intros Hi. exists k. rewrite key_eqb_refl. auto. Qed.
+Lemma dedup_keys_in l k : In k (dedup_keys l) <-> In k l.
+Proof.
+  induction l as [|a tl IH]; cbn [dedup_keys]; [tauto|]. destruct (existsb (key_eqb a) tl) eqn:E.
+  - rewrite IH. cbn. apply existsb_key_in in E. split; [auto|]. intros [<-|H]; assumption.
+  - cbn. rewrite IH. tauto.
+Qed.
+Lemma dedup_keys_nodup l : NoDup (dedup_keys l).
+Proof.
+  induction l as [|a tl IH]; cbn [dedup_keys]; [constructor|]. destruct (existsb (key_eqb a) tl) eqn:E; [assumption|].
+  constructor; [|assumption]. rewrite dedup_keys_in. intros Hi. apply existsb_key_in in Hi. congruence.
+Qed.
+Lemma nthk_in ms i : (i < length ms)%nat -> In (nthk ms i) (dedup_keys (keys_of ms)).
+Proof. intros H. apply dedup_keys_in. unfold nthk. apply nth_In. unfold keys_of. rewrite map_length. assumption. Qed.
+
+(* a passport instruction frame = the processor + the runtime's balance check over the instruction's accounts *)
+Lemma exec_data_passport ix ms h sib W W' :
+  exec_data KPassport (IxPassport ix) ms h sib W = Ok W' ->
+  pp_process (pp_cx ms h sib) W ix = Ok W' /\
+  total W' (dedup_keys (keys_of ms)) = total W (dedup_keys (keys_of ms)).
+Proof.
+  cbn [exec_data]. intros H. inv_all. ok_inj H. split; [exact Hm|]. unfold balanced in Hm0. cbn zeta in Hm0. keq.
+  rewrite !total_is_lamports_sum. congruence.
+Qed.
+Lemma exec_data_passport_only prog ix ms h sib W W' :
+  exec_data prog (IxPassport ix) ms h sib W = Ok W' -> prog = KPassport.
+Proof. destruct prog; cbn [exec_data bind]; intros H; try discriminate H. reflexivity. Qed.
+
+(* GrantAccess as an instruction frame: no saturation, exact amounts, conservation, request account emptied *)
+Lemma exec_grant_access ms h sib W W' :
+  exec_data KPassport (IxPassport PGrantAccess) ms h sib W = Ok W' ->
+  exists c r, is_pp_config W (nthk ms 0) c /\ is_pp_request W (nthk ms 2) r /\
+    let rk := nthk ms 2 in let s := pc_sentinel c in let b := ar_beneficiary r in
+    let bal := lamports (get W rk) in let fee := ar_fee r in
+    nthk ms 1 = s /\ nthk ms 3 = b /\ is_signer ms s = true /\ pc_paused c = false /\
+    fee <= bal /\ s <> rk /\ b <> rk /\
+    lamports (get W' rk) = 0 /\
+    (s <> b -> lamports (get W' s) = lamports (get W s) + fee /\ lamports (get W' b) = lamports (get W b) + (bal - fee)) /\
+    (s = b -> lamports (get W' s) = lamports (get W s) + bal) /\
+    (forall k, k <> rk -> k <> s -> k <> b -> get W' k = get W k) /\
+    (forall k, owner (get W' k) = owner (get W k) /\ alen (get W' k) = alen (get W k) /\ data (get W' k) = data (get W k)).
+Proof.
+  intros H. apply exec_data_passport in H. destruct H as (H & Hbal). cbn [pp_process] in H.
+  assert (Hok := pp_grant_access_ok _ _ _ H). assert (Hauth := pp_grant_access_authority _ _ _ H).
+  assert (Hacc := pp_grant_access_accounting _ _ _ _ H (dedup_keys_nodup (keys_of ms))).
+  apply pp_grant_access_amounts in H. cbn [pp_cx cx_metas] in *. cbn zeta in *.
+  destruct H as (c & r & Hc & Hr & Hn1 & Hn3 & Hz & Hs & Hb & Hsb & Hfr & Hmeta).
+  destruct Hok as (m0 & m1 & m2 & m3 & rest & c0 & r0 & Hms & _ & Hd0 & _ & Hk0 & Hp0 & _ & Hdr0 & Hb0 & _).
+  destruct Hauth as (c1 & (_ & Hd1) & _ & Hsig). destruct Hacc as (c2 & r2 & (_ & Hd2) & (_ & Hdr2) & Hacc).
+  destruct Hc as (Hco & Hcd). destruct Hr as (Hro & Hrd).
+  assert (c0 = c) by (rewrite Hms, nthk_0 in Hcd; congruence). assert (c1 = c) by congruence. assert (c2 = c) by congruence.
+  assert (r0 = r) by (rewrite Hms, nthk_2 in Hrd; congruence). assert (r2 = r) by congruence. subst c0 c1 c2 r0 r2.
+  assert (H1 : nthk ms 1 = pc_sentinel c) by (rewrite Hms, nthk_1; assumption).
+  assert (H3 : nthk ms 3 = ar_beneficiary r) by (rewrite Hms, nthk_3; assumption).
+  assert (Hlen : (4 <= length ms)%nat) by (rewrite Hms; cbn; lia).
+  assert (Hfee : ar_fee r <= lamports (get W (nthk ms 2))).
+  { specialize (Hacc (nthk_in ms 2 ltac:(lia))). rewrite <- H1, <- H3 in Hacc.
+    specialize (Hacc (nthk_in ms 1 ltac:(lia)) (nthk_in ms 3 ltac:(lia))). lia. }
+  exists c, r. split; [split; assumption|]. split; [split; assumption|].
+  repeat (split; [assumption|]). split; [auto|]. split; [|split; assumption].
+  intros E. rewrite (Hsb E). lia.
+Qed.
+
+Lemma exec_deny_access ms h sib W W' :
+  exec_data KPassport (IxPassport PDenyAccess) ms h sib W = Ok W' ->
+  exists c r, is_pp_config W (nthk ms 0) c /\ is_pp_request W (nthk ms 2) r /\
+    let rk := nthk ms 2 in let s := pc_sentinel c in
+    nthk ms 1 = s /\ is_signer ms s = true /\ pc_paused c = false /\ s <> rk /\
+    lamports (get W' rk) = 0 /\ lamports (get W' s) = lamports (get W s) + lamports (get W rk) /\
+    (forall k, k <> rk -> k <> s -> get W' k = get W k) /\
+    (forall k, owner (get W' k) = owner (get W k) /\ alen (get W' k) = alen (get W k) /\ data (get W' k) = data (get W k)).
+Proof.
+  intros H. apply exec_data_passport in H. destruct H as (H & _). cbn [pp_process] in H.
+  assert (Hok := pp_deny_access_ok _ _ _ H). assert (Hauth := pp_deny_access_authority _ _ _ H).
+  apply pp_deny_access_amounts in H. cbn [pp_cx cx_metas] in *. cbn zeta in *.
+  destruct H as (c & r & Hc & Hr & Hn1 & Hz & Hs & Hfr & Hmeta).
+  destruct Hok as (m0 & m1 & m2 & rest & c0 & r0 & Hms & _ & Hd0 & _ & Hk0 & Hp0 & _).
+  destruct Hauth as (c1 & (_ & Hd1) & _ & Hsig). destruct Hc as (Hco & Hcd).
+  assert (c0 = c) by (rewrite Hms, nthk_0 in Hcd; congruence). assert (c1 = c) by congruence. subst c0 c1.
+  assert (H1 : nthk ms 1 = pc_sentinel c) by (rewrite Hms, nthk_1; assumption).
+  exists c, r. split; [split; assumption|]. split; [assumption|]. auto 10.
+Qed.
+
+(* ---- transactions ---- *)
+Lemma tx_failed_unchanged W t W' : exec_tx W t = (W', false) -> W' = W.
+Proof.
+  unfold exec_tx. destruct (negb (tx_wf t)); [intros H; ok_inj H; reflexivity|].
+  destruct (exec_ixs t (tx_ixs t) None W); [destruct (rent_ok t W a)|]; intros H; ok_inj H; reflexivity.
+Qed.
+Lemma tx_success_inv W t W' :
+  exec_tx W t = (W', true) ->
+  tx_wf t = true /\ exists W1, exec_ixs t (tx_ixs t) None W = Ok W1 /\ rent_ok t W W1 = true /\ W' = purge W1.
+Proof.
+  unfold exec_tx. destruct (tx_wf t); cbn [negb]; [|discriminate]. destruct (exec_ixs t (tx_ixs t) None W) as [W1|]; [|discriminate].
+  destruct (rent_ok t W W1) eqn:E; [|discriminate]. intros H. ok_inj H. eauto.
+Qed.
+Lemma tx_single_inv W t W' i :
+  exec_tx W t = (W', true) -> tx_ixs t = [i] ->
+  tx_wf t = true /\ exists W1, exec_data (i_prog i) (i_data i) (effective t (i_metas i)) 1 None W = Ok W1 /\ W' = purge W1.
+Proof.
+  intros H Hi. apply tx_success_inv in H. destruct H as (Hwf & W1 & He & _ & ->). rewrite Hi in He. cbn [exec_ixs] in He.
+  inv_all. ok_inj He. eauto.
+Qed.
+Lemma lamports_purge W k : lamports (get (purge W) k) = lamports (get W k).
+Proof. rewrite get_purge. destruct (lamports (get W k) =? 0) eqn:E; [keq; rewrite E|]; reflexivity. Qed.
+
+(* message-level privileges *)
+Lemma nthk_effective t ms i : nthk (effective t ms) i = nthk ms i.
+Proof. unfold nthk, keys_of, effective. rewrite map_map. reflexivity. Qed.
+Lemma is_signer_effective t ms k : is_signer (effective t ms) k = true -> In k (tx_signers t).
+Proof.
+  intros H. apply is_signer_in in H. destruct H as (m & Hi & Hk & Hs). unfold effective in Hi. apply in_map_iff in Hi.
+  destruct Hi as (m' & <- & _). cbn in Hk, Hs. subst k. unfold msg_signer in Hs. apply existsb_key_in in Hs. exact Hs.
+Qed.
+
+(* C07 at instruction-frame level inside any transaction (any position, any world reached so far): a passport
+   instruction that needs an authority succeeds only if that authority's key signed the transaction *)
+Lemma exec_passport_authority t ms h sib W W' ix :
+  exec_data KPassport (IxPassport ix) (effective t ms) h sib W = Ok W' ->
+  match ix with
+  | PGrantAccess | PDenyAccess => exists c, is_pp_config W (nthk ms 0) c /\ In (pc_sentinel c) (tx_signers t)
+  | PConfigureProgram _ => exists c, is_pp_config W (nthk ms 0) c /\ In (pc_admin c) (tx_signers t)
+  | PSetAdmin _ => exists auth, data (get W (KProgData KPassport)) = DProgData (Some auth) /\ In auth (tx_signers t)
+  | PInitializeProgram | PRequestAccess _ => True
+  end.
+Proof.
+  intros H. apply exec_data_passport in H. destruct H as (H & _). destruct ix; cbn [pp_process] in H; try exact I.
+  - apply pp_set_admin_authority in H. destruct H as (auth & _ & Hd & _ & Hs). cbn in Hs. eauto using is_signer_effective.
+  - apply pp_configure_program_authority in H. destruct H as (c & Hc & _ & Hs). cbn in Hc, Hs. rewrite nthk_effective in Hc.
+    eauto using is_signer_effective.
+  - apply pp_grant_access_authority in H. destruct H as (c & Hc & _ & Hs). cbn in Hc, Hs. rewrite nthk_effective in Hc.
+    eauto using is_signer_effective.
+  - apply pp_deny_access_authority in H. destruct H as (c & Hc & _ & Hs). cbn in Hc, Hs. rewrite nthk_effective in Hc.
+    eauto using is_signer_effective.
+Qed.
